@@ -362,6 +362,39 @@ def check_c02(prog, rep, tier, cfg):
     layout.zeroing_after_wrapping(prog, rep, "C02.g")
     # ---------------------------------------------------------------- C02.h same text except the documented normalisations
     text.documented_normalisations(prog, rep, "C02.h")
+    # ---------------------------------------------------------------- C02.i who may change a token's kind, and which tokens
+    R = "C02.i"
+    writers = {}
+    for b2 in prog.bodies.values():
+        if not b2.crate.startswith("pasfmt"):
+            continue
+        for c in b2.calls():
+            if (c.callee or "").endswith("TokenData::set_token_type") or (c.target or "").endswith("::set_token_type"):
+                writers.setdefault(b2.npath, []).append(c)
+    P = "pasfmt_core::defaults::parser::"
+    IP = P + "InternalDelphiLogicalLineParser::"
+    allowed = {P + "parse_file": "cementing of undecided contextual keywords of the pass just parsed",
+               IP + "consolidate_class_op_in": "parser", IP + "parse_statement": "parser", IP + "parse_parameter_list::fix_next_eq": "parser",
+               IP + "consolidate_portability_directives": "parser", IP + "consolidate_prev_keyword": "parser", IP + "consolidate_current_ident": "parser",
+               IP + "consolidate_current_keyword": "parser", IP + "set_current_token_type": "parser", IP + "set_current_decl_kind": "parser",
+               IP + "consolidate_current_caret_to_type": "parser",
+               "<pasfmt_core::rules::generics_consolidator::DistinguishGenericTypeParamsConsolidator as pasfmt_core::traits::TokenConsolidator>::consolidate": "generic brackets"}
+    extra = sorted(set(writers) - set(allowed))
+    rep.check(not extra, R, "who-calls:set_token_type", "a token's kind is changed by unreviewed code: %s" % [short(x) for x in extra], instance={"writers": sorted(short(x) for x in writers)})
+    rep.floor(R, "set_token_type call sites", sum(len(v) for v in writers.values()), 12)
+    pf = prog.body(P + "parse_file")
+    if rep.check(pf is not None and len(writers.get(P + "parse_file", [])) == 1, R, "anchor:parse_file-cementing", "parse_file no longer has exactly one set_token_type call"):
+        c = writers[P + "parse_file"][0]
+        recv = canon(pf, c.args[0])
+        m = re.match(r"^arg1\[next\(into_iter\((.+)\)\)@Some\.0\]$", recv)
+        inner = m.group(1) if m else ""
+        facts = [f for f in dominating_variant_facts(prog, pf, c.bb) if "get_token_type(" in f[0] and f[1] == "is"]
+        only_undecided = any(f[2] == ("IdentifierOrKeyword",) for f in facts)
+        val = canon(pf, c.args[1])
+        rep.check(bool(m) and "arg1" not in inner and "next(" in inner and only_undecided and val.startswith("RawTokenType::Identifier"), R, "cementing-confined-to-the-pass",
+                  "after a pass, parse_file re-types %s to %s under %s — it must touch only tokens of the pass just parsed (an index taken from the pass's own token list) that are still IdentifierOrKeyword; "
+                  "re-typing tokens of branches that were not parsed yet hides their contextual keywords from later passes" % (recv, val, [f[2] for f in facts]),
+                  where=c.where(), instance={"receiver": recv, "value": val})
     # ---------------------------------------------------------------- C02.f spacing table never forces 0 between word-like tokens
     R = "C02.f"
     for fn, zero_for, root in (("spaces_before", {"None": None, "Op": {"LBrack", "LParen", ("LessThan", "Generic")}}, "before"), ("spaces_after", {"Op": {"RBrack", "RParen", ("GreaterThan", "Generic")}}, "after")):
